@@ -28,7 +28,8 @@ Lattice(Dts, BG, Al, AlN, Th) ==
     \cup {P("parabolic", dt, th, Q14, Half) : dt \in Dts, th \in Th}
 
 AlgoPrmsQuick    == Lattice(DtsQ, BGq, AlQ, AlNq, ThQ)
-AlgoPrmsThorough == Lattice(DtsT, BGt, AlT, AlNt, ThT)
+(* the thorough lattice stops where 32-bit rationals stop: hht_newmark with alpha = 1/7, 1/9 and dt = 1/3 overflow TLC's integers (an error, never a wrong value) *)
+AlgoPrmsThorough == Lattice(DtsQ \cup {R(3, 1)}, BGt, AlT, AlNq, ThT)
 (* multi-step switching histories: dyadic parameters keep numerators small *)
 AlgoPrmsSwitch ==
     {P("newmark", dt, Zero, Q14, Half) : dt \in {One, Two}}
@@ -52,6 +53,7 @@ C1 == M2(1, -1, -1, 1)     M1 == M2(2, 1, 1, 2)      M2d == M2(1, 0, 0, 3)
 CR == MAdd2(MScale2(Half, K1), MScale2(Half, M1))
 MatsQuick == {[k |-> K1, c |-> ZM, m |-> M1], [k |-> K2, c |-> C1, m |-> M2d], [k |-> K1, c |-> CR, m |-> M1]}
 MatsOne   == {[k |-> K2, c |-> C1, m |-> M2d]}
+MatsTwo   == {[k |-> K2, c |-> C1, m |-> M2d], [k |-> K1, c |-> CR, m |-> M1]}     \* re-assembled between two steps (matchange configuration)
 MatsFree  == {[k |-> K1, c |-> ZM, m |-> M1], [k |-> K2, c |-> ZM, m |-> M2d]}
 
 V2(x1, x2) == <<RI(x1), RI(x2)>>
